@@ -22,6 +22,8 @@ def run(c):
     r4(c)
     r5(c)
     r6(c)
+    r7(c)
+    r8(c)
 
 
 def r6(c):
@@ -326,3 +328,51 @@ def r5(c):
                 f"uniter of {k} is `{norm(u) if u is not None else None}`; must be `a + b` so that flags stay aligned with generator names", key_text=f"uniter-{k}")
     u = scheme["prio"].get("uniter")
     c.check("C02.R5", isinstance(u, ast.Name) and u.id == "max", repo.loc(m, u or d), "_PARAMS_SCHEME/prio.uniter", "prio uniter is not max", key_text="uniter-prio")
+
+
+def r7(c):
+    """which rule governs a row must not depend on the rows matched before it: the compiled ACL is shared (lru_cache) between all rows, devices and runs of the process"""
+    from sa.effects import Effects
+    repo = c.repo
+    c.rule("C02.R7", "the ACL matching functions do not write into the compiled ACL they are given: _select_match and match_row_to_acl mutate nothing reachable from their "
+                     "`matches` / `rules` arguments (children rules of several matches are merged into fresh dicts), and _find_acl_matches writes only the exempt scratch field "
+                     "['attrs']['match'] — a rule grafted onto another rule's children would make later rows covered by rules no generator placed there")
+    m = repo.module(PATCHING)
+    eff = Effects(repo, mode="paths", max_depth=6)
+    for q in ("_select_match", "match_row_to_acl", "_find_acl_matches"):
+        fn = repo.func(PATCHING, q)
+        c.count("functions")
+        mut = eff.mutated_params(m, q, fn)
+        bad = []
+        for p, sites in mut.items():
+            for s_ in sites:
+                wn = s_.root[3]
+                tgt = wn.targets[0] if isinstance(wn, ast.Assign) else None
+                scratch = isinstance(tgt, ast.Subscript) and isinstance(tgt.slice, ast.Constant) and tgt.slice.value == "match" and norm(tgt.value).replace('"', "'").endswith("['attrs']")
+                if not scratch:
+                    bad.append((p, s_))
+        if bad:
+            p, s_ = bad[0]
+            c.violated("C02.R7", f"{repo.module(s_.root[0]).rel}:{getattr(s_.root[3], 'lineno', 0)}", f"{q}({p})", f"{s_.how[:90]} writes into the compiled ACL reached through `{p}`: "
+                       "the children rules of one ACL rule are changed for every later row (and device) matched against the same cached ACL", key_text=f"acl-write:{p}")
+        else:
+            c.holds("C02.R7", repo.loc(m, fn), q, "no write into the compiled ACL")
+
+
+def r8(c):
+    repo = c.repo
+    c.rule("C02.R8", "ACL rows are matched as written: rbparser.acl._compile_acl compiles the direct and the reverse pattern of every ACL rule with compile_row_regexp(<row>) and no "
+                     "flags (case-sensitive for every vendor) — with IGNORECASE a rule naming one object (`ip vpn-instance MGMT`) would also cover a foreign object whose name differs "
+                     "only in letter case, and the patch would remove it")
+    m = repo.module(ACL)
+    fn = repo.func(ACL, "_compile_acl")
+    c.count("functions")
+    calls = [x for x in calls_in(fn) if call_name(x).split(".")[-1] == "compile_row_regexp"]
+    c.floor("C02.R8", "compile_row_regexp calls in _compile_acl", len(calls), 2)
+    pv = Provenance(fn)
+    for x in calls:
+        fl = x.args[1] if len(x.args) > 1 else kwarg(x, "flags")
+        v = pv.resolve_alias(fl) if fl is not None else None
+        ok = fl is None or (isinstance(v, ast.Constant) and v.value == 0)
+        c.check("C02.R8", ok, repo.loc(m, x), f"_compile_acl/{norm(x.args[0])[:40] if x.args else '?'}", f"ACL pattern compiled with flags `{norm(fl) if fl is not None else ''}`: rows differing from the rule "
+                "only in what the flag ignores are covered too", key_text="acl-flags")
